@@ -482,7 +482,7 @@ pub fn judge(sc: &SchedScenario, mut x: Execution, want: &[&str]) -> SchedOutcom
     }
 
     // ---- content survives flush + reopen (C06 / C02) ----
-    if has("C06") || has("C02") || has("C03") {
+    if has("C06") || has("C02") || has("C03") || has("C18") {
         let fr = std::panic::catch_unwind(std::panic::AssertUnwindSafe(|| crate::world::block_on(x.world.dev().flush_meta())));
         match fr {
             Ok(Ok(())) => {
@@ -496,7 +496,68 @@ pub fn judge(sc: &SchedScenario, mut x: Execution, want: &[&str]) -> SchedOutcom
                 match open_chain(&sim2, 0, &sc.cfg, false) {
                     Ok(d2) => {
                         let after = read_all(&d2, vsize, bs);
+                        // C18: the flag is clear, so the file has to reflect every completed operation:
+                        // per block, what a device opened on the file reads must be explained by some
+                        // real-time-respecting order of the completed writes and discards
+                        if has("C18") && !x.world.dev().need_flush_meta() {
+                            let cs = rd0.cs as u64;
+                            let discard_may_noop = sc.img.kind == "backing" || sc.img.kind == "compressed" || sc.img.kind == "zero";
+                            for b in 0..nblk {
+                                let goff = (b * BLK) as u64;
+                                let mut evs: Vec<BlockEvent> = vec![];
+                                for (ri, r) in x.records.iter().enumerate() {
+                                    match &r.op {
+                                        Op::Write { off, len, tag } if goff >= *off && goff < *off + *len as u64 => {
+                                            let bi = ((goff - off) as usize) / BLK;
+                                            evs.push(BlockEvent { ev: Ev::W(spec::word(*tag, bi as u32)), inv: r.inv, resp: r.resp, optional: !r.res.ok, rec: ri });
+                                        }
+                                        Op::Discard { off, len } => {
+                                            let end = off.saturating_add(*len).min(rd0.vsize);
+                                            let start = (*off + cs - 1) / cs * cs;
+                                            let stop = end / cs * cs;
+                                            if goff >= start && goff < stop {
+                                                evs.push(BlockEvent { ev: Ev::D, inv: r.inv, resp: r.resp, optional: !r.res.ok, rec: ri });
+                                            }
+                                        }
+                                        _ => {}
+                                    }
+                                }
+                                if evs.is_empty() && after[b] == Some(rd0.blocks[b]) {
+                                    continue;
+                                }
+                                evs.push(BlockEvent { ev: Ev::R(after[b]), inv: u64::MAX - 1, resp: u64::MAX, optional: false, rec: usize::MAX });
+                                if !linearizable(&evs, rd0.blocks[b], discard_may_noop) {
+                                    out.push(viol(
+                                        sc,
+                                        &x,
+                                        "C18",
+                                        format!("flag-clear-file-misses-completed-operation:{}:got-{}", sig, classify_word(after[b])),
+                                        format!(
+                                            "after all operations finished, flush_meta() returned Ok and need_flush_meta()==false, a device opened on the file reads {} at guest block {:#x}, which no order of the completed operations explains",
+                                            describe_word(after[b]),
+                                            b * BLK
+                                        ),
+                                    ));
+                                    break;
+                                }
+                            }
+                        }
                         if let Some(b) = (0..nblk).find(|&b| after[b] != final_words[b]) {
+                            // C18 at this later quiescent point: the flag is clear after a successful flush_meta
+                            if has("C18") && !x.world.dev().need_flush_meta() {
+                                out.push(viol(
+                                    sc,
+                                    &x,
+                                    "C18",
+                                    format!("flag-clear-after-flush-reopen-differs:{}:got-{}", sig, classify_word(after[b])),
+                                    format!(
+                                        "after all operations finished, flush_meta() returned Ok and need_flush_meta()==false, but a device opened on the file reads {} at guest block {:#x} where the live device reads {}",
+                                        describe_word(after[b]),
+                                        b * BLK,
+                                        describe_word(final_words[b])
+                                    ),
+                                ));
+                            }
                             for p in ["C06", "C02"] {
                                 if has(p) {
                                     out.push(viol(
